@@ -65,20 +65,6 @@ theorem reach_of_run {c : Cfg} {ls : List Label} {p : State → Bool}
   | none => simp [hr] at h
   | some s => exact ⟨s, reach_run _ Reach.init hr, by simpa [hr] using h⟩
 
-/-- **F4 witness** (still present after commit 7623822) — the tight capacity of
-    `unord_q` is FALSE for the code as it is: with n = 2, out_slots = 4
-    (capacity 2 + 4 − 3 = 3) a reachable state has 4 entries in `unord_q`; 3 of
-    them are stale (their job was `discard()`ed by `advance()`; they are marked
-    complete and wait for the parser, holding neither a work unit nor an
-    output slot).  The
-    intended theorem `unord_cap_partial : |unord_q| ≤ cap + #stale` is checked
-    by BFS only (`unordpartialviol = 0`). -/
-theorem unord_cap_false :
-    ∃ s, Reach cfgF4 s ∧ unordSize s > unordCapOf cfgF4 ∧ staleCount s = 3 := by
-  obtain ⟨s, hr, hp⟩ := reach_of_run f4_run
-  simp only [Bool.and_eq_true, decide_eq_true_eq] at hp
-  exact ⟨s, hr, by omega, hp.2⟩
-
 /-- **conservation** (full strength): while `failf` has not been called, the
     free work units plus the jobs queued in `retr_q`/`emit_q` plus the busy
     workers make up `n`, and the free output slots plus the buffers in
@@ -136,11 +122,12 @@ theorem attach_in_range {c : Cfg} {s : State} (h : Reach c s) :
     (s.pdone = false → headOffs c s ≤ s.ppos) ∧ staleAttach c s = false :=
   LbzVerif.Lemmas.SchedD.attach_in_range h
 
-/-- on the former F5 run the overtaken job is discarded and `retr_q` is in range -/
-example : ∃ s, Reach cfgF5 s ∧ headOffs cfgF5 s = 6 ∧ unordSize s = 1 ∧ staleCount s = 1 := by
+/-- on the former F5 run the overtaken job is discarded (its unord_blk leaves
+    unord_q with it) and `retr_q` is in range -/
+example : ∃ s, Reach cfgF5 s ∧ headOffs cfgF5 s = 6 ∧ unordSize s = 0 := by
   obtain ⟨s, hr, hp⟩ := reach_of_run f5_repaired
   simp only [Bool.and_eq_true, decide_eq_true_eq] at hp
-  exact ⟨s, hr, hp.1.1.1.2, hp.1.2, hp.2⟩
+  exact ⟨s, hr, hp.1.1.2, hp.2⟩
 
 /-- **no_unord_leak** (full strength, restored after the F2 repair): every
     `unord_blk` that no retrieve job owns is still in `unord_q` (so the parser
